@@ -22,6 +22,7 @@ import (
 	"strings"
 	"testing"
 
+	"github.com/rhysd/actionlint/verifshim/vexec"
 	"github.com/rhysd/actionlint/verifshim/vsched"
 )
 
@@ -733,6 +734,23 @@ func TestVerifC10Race(t *testing.T) {
 			l2, _ := NewLinter(&out2, &LinterOptions{WorkingDir: root, Verbose: true, Debug: true, LogWriter: &logs})
 			if _, err := l2.LintFiles(all, nil); err != nil {
 				t.Fatal(err)
+			}
+			runs++
+			// ... and with both tool integrations on (scripted tools that find nothing): the command
+			// runners of the files of one run work side by side
+			vexec.LookPathFn = func(file string) (string, error) { return "/fake/" + file, nil }
+			vexec.Handler = func(name string, args []string) vexec.Outcome {
+				if filepath.Base(name) == "shellcheck" {
+					return vexec.Outcome{Stdout: []byte("[]")}
+				}
+				return vexec.Outcome{}
+			}
+			var out3 bytes.Buffer
+			l3, _ := NewLinter(&out3, &LinterOptions{WorkingDir: root, Shellcheck: "shellcheck", Pyflakes: "pyflakes"})
+			_, err3 := l3.LintFiles(all, nil)
+			vexec.LookPathFn, vexec.Handler = nil, nil
+			if err3 != nil {
+				t.Fatal(err3)
 			}
 			runs++
 		}
